@@ -177,7 +177,7 @@ def gen_factor_case(rng, tier):
     if p == 2:
         maxtot = min(maxtot, 9)          # the p = 2 branch runs 2^(deg-1) squarings
     seed = rng.randint(1, 3)
-    op = rng.choice(["factor", "factor", "factor", "zass", "edfz"])
+    op = rng.choice(["factor", "factor", "factor", "zass", "edfz", "shoup", "shoup", "edfs", "ddfz", "ddfs"])
     if op == "factor":
         f = [rng.randrange(1, p)]
         while True:
@@ -192,7 +192,7 @@ def gen_factor_case(rng, tier):
     irr = []
     tot = 0
     for _ in range(rng.randint(1, 5)):
-        d = n if op == "edfz" else rng.choice([1, 2, 3])
+        d = n if op in ("edfz", "edfs") else rng.choice([1, 2, 3])
         g = rand_irreducible(rng, p, d)
         if g not in irr and tot + d <= maxtot:
             irr.append(g)
@@ -200,7 +200,7 @@ def gen_factor_case(rng, tier):
     f = [1]
     for g in irr:
         f = pmul(f, g, p)
-    return op, p, seed, f, (" %d" % n if op == "edfz" else "")
+    return op, p, seed, f, (" %d" % n if op in ("edfz", "edfs") else "")
 
 
 CORPUS = [
@@ -213,6 +213,9 @@ CORPUS = [
     "eval 5 0,1 -1",
     "frobbase 618970019642690137449562111 1,0,1,1",
     "ddfz 618970019642690137449562111 3,0,1,1",
+    # gf_edf_shoup recursed without bound before a42bcec (wrong _gf_trace_map)
+    "shoup 1009 1 x 927,594,946,36,852,857,1",
+    "edfs 1009 1 x 927,594,946,36,852,857,1 3",
     # boundaries of the division loops: deg f = deg g, deg f = deg g + 1, divisor of degree 1, constant divisor
     "div 5 1,2,3,4,1 4,0,2", "div 5 1,2,3 1,2,3", "div 5 1,2,3 0,0,4", "div 5 1,2,3,4 3,1", "div 5 1,2,3 4",
     "div 5 1,2 1,2,3", "div 5 - 1,2", "div 5 1,2 -", "div 7 6,5,4,3,2,1,1 1,1,1,1", "div 2 1,0,1,1,0,1,1 1,1,1",
@@ -228,10 +231,11 @@ CORPUS = [
     "lsh 5 1,2 3", "lsh 5 - 3", "rsh 5 1,2,3 1", "rsh 5 1,2,3 3", "rsh 5 0,0,3 2",
     "frommap 7 0:8,3:14,2:5", "frommap 7 -", "fromint 7 -3", "fromvec 7 7,14,0",
     "frobbase 5 1,0,0,0,1", "frobbase 2 1,1,0,1,1,0,0,1", "frobmap 5 1,1,1 1,0,0,0,1", "ddfz 5 1,0,0,0,1", "ddfz 3 2,0,1,1,0,0,1",
+    "ddfs 5 1,0,0,0,1", "ddfs 3 2,0,1,1,0,0,1", "ddfs 7 3,1", "ddfs 7 1", "ddfs 7 -", "ddfs 2 1,1,0,1,1,0,0,1",
 ]
 
 
-POLY_ARGS = {"powmod": (2, 3), "compose": (2, 3, 4), "edfz": (4,), "zass": (4,), "factor": (4,), "edfs": (4,), "shoup": (4,),
+POLY_ARGS = {"ddfs": (2,), "powmod": (2, 3), "compose": (2, 3, 4), "edfz": (4,), "zass": (4,), "factor": (4,), "edfs": (4,), "shoup": (4,),
              "fromint": (), "frommap": ()}
 for _op in BINARY:
     POLY_ARGS[_op] = (2, 3)
@@ -249,10 +253,11 @@ class Streams:
     def __init__(self, ctx, drv):
         self.ctx, self.drv, self.cache = ctx, drv, {}
 
-    def get(self, p, seed):
-        k = (p, seed)
+    def get(self, p, seed, op):
+        # Zassenhaus: few generators, many draws (2n-1 per attempt); Shoup: one generator per recursive call, deg-1 draws
+        J, I = (200, 14) if op in ("shoup", "edfs") else ((40, 120) if p < 1000 else (16, 60))
+        k = (p, seed, J, I)
         if k not in self.cache:
-            J, I = (40, 120) if p < 1000 else (16, 60)
             self.cache[k] = self.ctx.run_lines(self.drv, ["streams %d %d %d %d" % (p, seed, J, I)])[0]
         return self.cache[k]
 
@@ -324,7 +329,10 @@ def run(ctx):
     cases += [gen_case(ctx.rng, ctx.tier) for _ in range(2500 if quick else 40000)]
     fac = exhaustive_factor(ctx.tier) + [gen_factor_case(ctx.rng, ctx.tier) for _ in range(300 if quick else 6000)]
     for op, p, seed, f, extra in fac:
-        cases.append("%s %d %d %s %s%s" % (op, p, seed, streams.get(p, seed), fmt(f), extra))
+        if op in ("ddfz", "ddfs"):
+            cases.append("%s %d %s" % (op, p, fmt(f)))
+        else:
+            cases.append("%s %d %d %s %s%s" % (op, p, seed, streams.get(p, seed, op), fmt(f), extra))
     cases += exhaustive_cases(ctx.tier)
     explore(ctx, drv, model, cases)
     if ctx.broken and not ctx.violations:
